@@ -15,11 +15,13 @@ import (
 	"github.com/libsv/go-bt/v2"
 	"github.com/libsv/go-bt/v2/bscript"
 	"github.com/libsv/go-bt/v2/bscript/interpreter"
+	"github.com/libsv/go-bt/v2/bscript/interpreter/scriptflag"
 	"github.com/libsv/go-bt/v2/sighash"
 	"github.com/libsv/go-bt/v2/unlocker"
 	"pgregory.net/rapid"
 
 	"verif/harness/pbt"
+	"verif/harness/sgen"
 )
 
 // Job is one validation: a signed P2PKH spend (valid, or corrupted after
@@ -36,6 +38,9 @@ type Job struct {
 	A     int     `json:"a,omitempty"`    // script jobs: operands
 	B     int     `json:"b,omitempty"`
 	C     int     `json:"c,omitempty"`
+	Lock  pbt.Hex `json:"lock,omitempty"`   // prog / cond jobs: generated scripts
+	Un    pbt.Hex `json:"unlock,omitempty"`
+	Flags uint32  `json:"flags,omitempty"`
 	Owner int     `json:"owner"` // goroutine that validates it in the concurrent phase
 	Yield bool    `json:"yield,omitempty"`
 }
@@ -55,6 +60,7 @@ type built struct {
 	prev     []byte
 	sats     uint64
 	lock, un []byte // script jobs
+	flags    *uint32 // prog jobs run under their own flag set
 }
 
 var curveN = bec.S256().N
@@ -76,6 +82,9 @@ func smallInt(n int) byte { return byte(0x50 + n) } // OP_1..OP_16
 
 func materialise(j Job) (*built, error) {
 	switch j.Kind {
+	case "prog", "cond": // a generated program (conditionals, alt stack, separators: all per-execution state)
+		f := j.Flags
+		return &built{un: j.Un, lock: j.Lock, flags: &f}, nil
 	case "add": // <a> <b> | OP_ADD <c> OP_NUMEQUAL
 		if j.A < 1 || j.A > 16 || j.B < 1 || j.B > 16 || j.C < 1 || j.C > 16 {
 			return nil, fmt.Errorf("operands out of range")
@@ -142,7 +151,10 @@ func materialise(j Job) (*built, error) {
 
 func (b *built) run(e interpreter.Engine) string {
 	var err error
-	if b.tx == nil {
+	if b.tx == nil && b.flags != nil {
+		err = e.Execute(interpreter.WithScripts(bscript.NewFromBytes(append([]byte{}, b.lock...)), bscript.NewFromBytes(append([]byte{}, b.un...))),
+			interpreter.WithFlags(scriptflag.Flag(*b.flags)))
+	} else if b.tx == nil {
 		err = e.Execute(interpreter.WithScripts(bscript.NewFromBytes(append([]byte{}, b.lock...)), bscript.NewFromBytes(append([]byte{}, b.un...))),
 			interpreter.WithForkID(), interpreter.WithAfterGenesis())
 	} else {
@@ -236,6 +248,14 @@ func checkEngine(ctx *pbt.Ctx, c EngCase) error {
 	return nil
 }
 
+func bytesRepeat(b byte, n int) []byte {
+	o := make([]byte, n)
+	for i := range o {
+		o[i] = b
+	}
+	return o
+}
+
 var sigFlags = []int{0x41, 0x41, 0x41, 0x42, 0x43, 0xc1, 0xc2, 0xc3}
 
 func genEngine(t *rapid.T) EngCase {
@@ -250,9 +270,50 @@ func genEngine(t *rapid.T) EngCase {
 		keys[i] = b
 	}
 	for i := 0; i < n; i++ {
-		j := Job{Kind: rapid.SampledFrom([]string{"valid", "valid", "valid", "sigflip", "wrongkey", "outtamper", "amount", "add", "hash"}).Draw(t, "kind"),
+		j := Job{Kind: rapid.SampledFrom([]string{"valid", "valid", "valid", "sigflip", "wrongkey", "outtamper", "amount", "add", "hash", "prog", "prog", "cond", "cond"}).Draw(t, "kind"),
 			Owner: rapid.IntRange(0, c.Goroutines-1).Draw(t, "owner"), Yield: rapid.IntRange(0, 5).Draw(t, "yield") == 0}
 		switch j.Kind {
+		case "prog":
+			fl := sgen.Flags(t, sgen.FlagPoolNonSig)
+			pr := sgen.StackAware(t, fl, 25)
+			j.Un, j.Lock, j.Flags = pr.Unlock, pr.Lock, uint32(pr.Flags)
+			// signature / locktime opcodes need a transaction: keep these jobs script-only
+			for i, b := range j.Lock {
+				if b >= 0xac && b <= 0xb2 && b != 0xb0 {
+					j.Lock[i] = 0x61
+				}
+			}
+			for i, b := range j.Un {
+				if b >= 0xac && b <= 0xb2 && b != 0xb0 {
+					j.Un[i] = 0x61
+				}
+			}
+		case "cond":
+			// <v> | IF <n NOPs> <a> ELSE <n NOPs> <b> ENDIF, optionally nested and with the alt stack:
+			// long enough for executions to overlap, verdict decided by the branch state
+			n := rapid.IntRange(20, 300).Draw(t, "cond_n")
+			v := byte(rapid.IntRange(0, 1).Draw(t, "cond_v"))
+			a, b := byte(rapid.IntRange(0, 1).Draw(t, "cond_a")), byte(rapid.IntRange(0, 1).Draw(t, "cond_b"))
+			nop := func(k int) []byte { return bytesRepeat(0x61, k) }
+			pushBit := func(x byte) byte {
+				if x == 0 {
+					return 0x00
+				}
+				return 0x51
+			}
+			lock := []byte{0x63}
+			if rapid.Bool().Draw(t, "cond_nested") {
+				lock = append(lock, 0x51, 0x63)
+				lock = append(lock, nop(n/2)...)
+				lock = append(lock, 0x67)
+				lock = append(lock, nop(n/2)...)
+				lock = append(lock, 0x68)
+			}
+			lock = append(lock, nop(n)...)
+			lock = append(lock, pushBit(a), 0x6b, 0x6c, 0x67) // result through the alt stack
+			lock = append(lock, nop(n)...)
+			lock = append(lock, pushBit(b), 0x68)
+			j.Un, j.Lock, j.Flags = []byte{pushBit(v)}, lock, 1<<14
 		case "add":
 			j.A, j.B = rapid.IntRange(1, 8).Draw(t, "a"), rapid.IntRange(1, 8).Draw(t, "b")
 			j.C = j.A + j.B
